@@ -3,34 +3,48 @@ from vlib import Suite, zlit, coqlist, blit
 
 ID = "C06"
 READY = True
-RULE = ("one case = one game on a real MPF machine (rig.FakeGameRig, virtual clock): generated balls_per_game (1-4), "
+RULE = ("suite game: one case = one or two games on a real MPF machine (rig.FakeGameRig, virtual clock): generated balls_per_game (1-4), "
         "max_players (1-5), num_balls_known (0-4), answer to the game's own first player_add_request, and a list of "
         "inputs consumed one per suspension of the game coroutine (every lifecycle event post, every idle wait for "
-        "end-of-ball / first player).  An input carries the operations a handler of that lifecycle event issues "
-        "(drain n, balls_in_play += d, end_ball, end_game, slam tilt, request_player_add allowed/denied, release of the oldest/newest "
+        "end-of-ball / first player / empty playfield).  An input carries the operations a handler of that lifecycle event issues "
+        "(drain n = ball_drain relay + the balls leave the playfield, playfield count += d (stray ball in the drain, lost/found ball), "
+        "balls_in_play += d, end_ball, end_game, slam tilt, request_player_add allowed/denied, release of the oldest/newest "
         "player_adding queue held open by a handler (cases with such a handler: profile heldadds and 10% of the others), "
-        "extra-ball award), "
-        "the batches that arrive while a queue-event handler holds a wait, and the batch used when the game is idle. "
-        "Profiles bias towards: adds in every gap, extra balls, multiball arithmetic, early ends, plain games. "
+        "extra-ball award), the batches that arrive while a queue-event handler holds a wait, and the batch used when the game is idle. "
+        "Every operation is followed by an observation of balls_in_play (compared with the model and used by the oracle to attribute "
+        "every change to one operation).  Half of the cases without held adds start a second game with its own configuration on the "
+        "same Game mode object when the first has ended (playfield left as it is) and feed it the remaining inputs. "
+        "Profiles bias towards: adds in every gap, extra balls, multiball arithmetic, early ends, plain games, balls ended by request "
+        "that drain at every later suspension point (latedrain), negative / left-over playfield counts (strays), joins inside the "
+        "last player's turn-ending events with balls_per_game 1 (lastjoin). "
+        "suite devices (oracle-only supplement): real trough + plunger + playfield on the smart_virtual platform with the real ball "
+        "controller; a script attaches physical drains, stray balls, playfield switch hits, end_ball requests and queue holds to the "
+        "lifecycle events, balls in play drain after a while. "
         "non-trivial = the game got at least one operation inside a lifecycle event (not only idle drains); distinct by case hash")
 TRUSTED_BASE = [
     "Coq 8.16.1 kernel (coqc), vm_compute for refutation witnesses and for evaluating the model in the correspondence run; no native_compute",
     "axioms: none (every Print Assumptions is 'Closed under the global context')",
-    "hand-written model coq/C06/Model.v (pc machine of Game._run with the fixes/C06-*.patch applied) tied to the working tree by "
-    "correspondence: harness/props/c06.py runs the real game mode and the model on the same generated inputs and compares the whole "
-    "chronological trace (lifecycle events with player, ball, is_extra_ball, balls_in_play, number of players; idle observations; awards; end)",
+    "hand-written model coq/C06/Model.v (pc machine of Game._run incl. the wait of BallController.wait_until_playfields_are_empty, the "
+    "playfield count read by it, and the re-initialisation at the top of _run for further games on the same mode object) tied to the "
+    "working tree by correspondence: harness/props/c06.py runs the real game mode and the model on the same generated inputs and compares "
+    "the whole chronological trace (lifecycle events with player, ball, is_extra_ball, balls_in_play, number of players; one observation "
+    "of balls_in_play per operation with the kind of request; idle observations with balls_in_play, players and playfield count; awards; end)",
     "the MPF event manager (depth-first event queue, callbacks after the queue is empty, queue events as tasks) and asyncio are used as they "
     "are; their effect on the game is summarised in the model as 'a batch takes effect in order, player-add chains complete at the end of the batch'",
-    "mpf.tests.MpfFakeGameTestCase (no ball devices: playfield.add_ball stubbed, num_balls_known set, drains posted as ball_drain relay events)",
+    "mpf.tests.MpfFakeGameTestCase for suite game (no ball devices: playfield.add_ball stubbed to count available_balls, num_balls_known set, "
+    "drains posted as ball_drain relay events); suite devices uses real ball devices but is checked by the oracle only",
 ]
 ASSUMPTIONS = [
     "no handler of player_added/player_will_add acts on the game; a player_adding handler, when present, holds every new player's "
     "queue until an explicit release, and releases happen only while the machine is quiescent (idle batch or inside a held lifecycle "
     "queue event): the interleaving of an unheld player_adding queue task with the next lifecycle event belongs to C01/C02",
-    "operations reach the game only at lifecycle events (handlers), inside held queue events, or while the game idles; the silent awaits of "
-    "_start_ball (single/multi_player_ball_started, ball_start_target) get no operations",
-    "tilt/bonus/high-score modes are not loaded; slam tilt is the effect of Tilt.slam_tilt on the game object (slam_tilted=True, end_ball unless ending)",
-    "balls_per_game >= 1, max_players >= 1, num_balls_known >= 0; playfields are empty at ball start (wait_until_playfields_are_empty returns at once)",
+    "operations reach the game only at lifecycle events (handlers), inside held queue events, or while the game idles (end of ball, first "
+    "player, empty playfield); the silent awaits of _start_ball (single/multi_player_ball_started, ball_start_target) get no operations",
+    "tilt/bonus/high-score modes are not loaded; slam tilt is the effect of Tilt.slam_tilt on the game object (slam_tilted=True, end_ball unless ending); "
+    "Mode.stop() of the game mode (task cancellation: no game_ended) is not modelled and not generated",
+    "balls_per_game >= 1, max_players >= 1, num_balls_known >= 0; one playfield; wait_for_empty_playfields_on_ball_start at its default (true)",
+    "new_game_starts_clean assumes that no player_adding queue is still held open when the game ends (second games are generated only "
+    "for cases without such a handler)",
 ]
 
 KINDS = ["game_will_start", "game_starting", "game_started", "game_will_end", "game_ending", "game_ended",
@@ -41,7 +55,8 @@ K = {n: i for i, n in enumerate(KINDS)}
 QUEUE = {1, 4, 7, 10, 13, 16}
 GWS, GSg, GSd, GWE, GEg, GEd, PTWS, PTSg, PTSd, PTWE, PTEg, PTEd, BWS, BSg, BSd, BWE, BEg, BEd = range(18)
 
-PROFILES = ["plain", "busy", "adds", "heldadds", "heldadds", "extras", "multiball", "enders", "mixed"]
+PROFILES = ["plain", "busy", "adds", "heldadds", "heldadds", "extras", "multiball", "enders", "mixed",
+            "latedrain", "strays", "lastjoin"]
 
 
 # ------------------------------------------------------------------------------------------------
@@ -61,13 +76,25 @@ def gen_op(rng, prof):
         w = {"drain": 1, "addbip": 1, "endball": 3, "endgame": 3, "slam": 2, "addplayer": 2, "award": 1}
     elif prof == "plain":
         w = {"drain": 1, "addbip": 0.3, "endball": 1, "endgame": 0.1, "slam": 0.1, "addplayer": 2, "award": 1}
+    elif prof == "latedrain":
+        # balls ended by request while still on the playfield; they drain at every later suspension point
+        w = {"drain": 6, "addbip": 0.2, "endball": 2.5, "endgame": 0.05, "slam": 0.2, "addplayer": 0.7, "award": 0.5, "pfadd": 0.3}
+    elif prof == "strays":
+        # stray balls roll into the drain / balls get lost between two balls: the playfield count goes negative / stays up
+        w = {"drain": 3, "addbip": 0.5, "endball": 1, "endgame": 0.05, "slam": 0.1, "addplayer": 0.7, "award": 0.5, "pfadd": 4}
+    elif prof == "lastjoin":
+        # joins inside the turn-ending events of the (so far) last player
+        w = {"drain": 1, "addbip": 0, "endball": 1, "endgame": 0, "slam": 0, "addplayer": 7, "award": 0.3, "pfadd": 0.1}
     w.setdefault("release", 0.3)
+    w.setdefault("pfadd", 0.25)
     ks = list(w)
     k = rng.choices(ks, [w[x] for x in ks])[0]
     if k == "drain":
         return ["drain", rng.choice([0, 1, 1, 1, 2, 3])]
     if k == "addbip":
         return ["addbip", rng.choice([1, 1, 2, -1, -2, 5, -7, 0])]
+    if k == "pfadd":
+        return ["pfadd", rng.choice([-1, -1, -1, 1, 1, -2, 2, -3])]
     if k in ("endball", "endgame"):
         return [k, rng.choice(["call", "event"])]
     if k == "addplayer":
@@ -91,6 +118,12 @@ def gen_batch(rng, prof, p_any, maxn=3, ev=False):
 
 def gen_idle(rng, prof):
     r = rng.random()
+    if prof == "latedrain" and r < 0.45:
+        # the ball is ended by request (it stays on the playfield and comes home later)
+        b = [["endball", rng.choice(["call", "event"])]]
+        if rng.random() < 0.2:
+            b.append(["drain", 1])
+        return b
     if r < 0.55:
         b = [["drain", 1]]
     elif r < 0.63:
@@ -120,7 +153,8 @@ def gen_input(rng, prof, dens):
 def gen_game(rng, tier, i):
     prof = rng.choice(PROFILES)
     dens = {"plain": 0.04, "busy": 0.35, "adds": 0.25, "heldadds": rng.choice([0.08, 0.2, 0.4]), "extras": 0.12, "multiball": 0.15, "enders": 0.06,
-            "mixed": rng.choice([0.02, 0.1, 0.5])}[prof]
+            "mixed": rng.choice([0.02, 0.1, 0.5]), "latedrain": rng.choice([0.15, 0.3, 0.5]), "strays": rng.choice([0.1, 0.3]),
+            "lastjoin": rng.choice([0.3, 0.6])}[prof]
     if prof == "adds" and rng.random() < 0.5:
         dens = 0.6
     n = rng.choice([6, 15, 30, 60, 100, 160, 240])
@@ -131,9 +165,16 @@ def gen_game(rng, tier, i):
         # a calm tail so that most games run to their end
         for _ in range(rng.choice([40, 120, 300])):
             ins.append({"ev": [], "holds": [], "idle": [["drain", rng.choice([1, 1, 1, 2])]]})
-    return {"bpg": rng.choice([1, 1, 2, 2, 3, 3, 4]), "maxp": rng.choice([1, 2, 2, 3, 4, 4, 5]),
+    case = {"bpg": rng.choice([1, 1, 2, 2, 3, 3, 4]), "maxp": rng.choice([1, 2, 2, 3, 4, 4, 5]),
             "nbk": rng.choice([0, 1, 2, 3, 3, 4]), "own": rng.random() < 0.93,
             "holdadds": prof == "heldadds" or rng.random() < 0.1, "ins": ins, "profile": prof}
+    if prof == "lastjoin":
+        case["bpg"] = rng.choice([1, 1, 1, 2])
+        case["maxp"] = rng.choice([2, 3, 4, 5])
+    if not case["holdadds"] and rng.random() < 0.5:
+        # a second game on the same Game mode object, started when the first one has ended, fed with the rest of the inputs
+        case["g2"] = {"bpg": rng.choice([1, 2, 3]), "maxp": rng.choice([1, 2, 4]), "own": rng.random() < 0.95}
+    return case
 
 
 # ------------------------------------------------------------------------------------------------
@@ -153,7 +194,6 @@ def _new_rig():
     def post_batch(ops):
         for op in ops:
             m.events.post("verif_op", op=op)
-        m.events.post("verif_obs")
 
     def lifecycle(kind):
         def h(**kwargs):
@@ -161,10 +201,6 @@ def _new_rig():
             g = m.game
             if c is None:
                 return
-            if kind == BWS:
-                # no ball devices: the fake playfield is empty at every ball start
-                m.playfield.balls = 0
-                m.playfield.available_balls = 0
             if c["phase"] == "restart":
                 if kind == GSd:
                     c["restart_started"] = True
@@ -201,24 +237,34 @@ def _new_rig():
         g = m.game
         if c is None or g is None:
             return
-        c["log"].append({"t": "op", "op": op[0], "bip": g.balls_in_play, "ending": bool(g.ending)})
+        c["log"].append({"t": "op", "op": op[0], "bip": g.balls_in_play, "ending": bool(g.ending),
+                         "pf": m.playfield.available_balls})
         k = op[0]
+        code = 0
         if k == "drain":
+            # MpfFakeGameTestCase.drain_one_ball: the relay event, and the balls leave the playfield
             m.events.post_relay("ball_drain", balls=op[1])
+            m.playfield.available_balls -= op[1]
+        elif k == "pfadd":
+            # a stray ball rolls into the trough while the playfield had none / a ball is found or lost
+            m.playfield.available_balls += op[1]
         elif k == "addbip":
             g.balls_in_play += op[1]
         elif k == "endball":
+            code = 1
             if op[1] == "event":
                 m.events.post("end_ball")
             else:
                 g.end_ball()
         elif k == "endgame":
+            code = 2
             if op[1] == "event":
                 m.events.post("end_game")
             else:
                 g.end_game()
         elif k == "slam":
             # Tilt.slam_tilt(): game.slam_tilted = True; self.tilt() returns early when the game is ending, else end_ball()
+            code = 4 if g.ending else 3
             g.slam_tilted = True
             if not g.ending:
                 g.end_ball()
@@ -235,13 +281,16 @@ def _new_rig():
                 c["log"].append({"t": "award", "p": g.player.number})
             else:
                 c["log"].append({"t": "award", "p": 0})
+        # events posted by a handler are processed before the rest of the queue, in order: the observation below
+        # comes after the ball_drain / end_ball / end_game event of this operation and before the next operation
+        m.events.post("verif_after", code=code)
 
-    def verif_obs(**kwargs):
+    def verif_after(code, **kwargs):
         c = ctx()
         g = m.game
         if c is None or g is None:
             return
-        c["log"].append({"t": "obs", "bip": g.balls_in_play})
+        c["log"].append({"t": "opobs", "code": code, "bip": g.balls_in_play})
 
     def player_add_request(**kwargs):
         c = ctx()
@@ -259,11 +308,12 @@ def _new_rig():
 
     r._player_adding = player_adding
     m.events.add_handler("verif_op", verif_op)
-    m.events.add_handler("verif_obs", verif_obs)
+    m.events.add_handler("verif_after", verif_after)
     m.events.add_handler("player_add_request", player_add_request, priority=1000)
 
     def _add_ball(**kwargs):
-        m.playfield.balls += 1
+        # (MpfFakeGameTestCase also counts playfield.balls; only available_balls is read by the code under test, and
+        # leaving balls at 0 keeps the ball search of the playfield out of the picture)
         m.playfield.available_balls += 1
     m.playfield.add_ball = _add_ball
     r._post_batch = post_batch
@@ -285,6 +335,7 @@ def _finish_game(r):
     for _ in range(80):
         if m.game is None:
             return True
+        m.playfield.available_balls = 0     # a ball start waits for the balls to come home
         m.game.end_game()
         r.advance_time_and_run(1)
     return m.game is None
@@ -307,14 +358,14 @@ def run_game(case):
     m.playfield.balls = 0
     m.playfield.available_balls = 0
     c = {"phase": "run", "stop": False, "log": [], "evc": 0, "pos": 0, "ins": case["ins"], "hold": None,
-         "flags": [], "heldq": [], "own": bool(case["own"]), "restart_started": False}
+         "flags": [], "heldq": [], "own": bool(case["own"]), "restart_started": False, "gameno": 1, "lastfin": None}
     _R["ctx"] = c
     m.events.remove_handler(r._player_adding)
     if case.get("holdadds"):
         # a handler of the player_adding queue event that keeps every new player's queue open until it is told to
         # release it (op "release"); without it the event manager completes player_adding on its fast path
         m.events.add_handler("player_adding", r._player_adding, priority=1000)
-    out = {"log": c["log"], "err": None}
+    out = {"log": c["log"], "err": None, "splits": []}
     try:
         r.hit_and_release_switch("s_start")
         guard = 0
@@ -323,7 +374,7 @@ def run_game(case):
             if guard > 20000:
                 out["err"] = "driver-loop-guard"
                 break
-            r.advance_time_and_run(1)
+            r.advance_time_and_run(0.5)
             if c["stop"]:
                 break
             if c["hold"] is not None:
@@ -336,10 +387,28 @@ def run_game(case):
                 continue
             if m.game is None:
                 if c["evc"] == 0:
-                    out["err"] = "game-did-not-start"
+                    if c["lastfin"] is not None:
+                        c["lastfin"]["restart_ok"] = False
+                    else:
+                        out["err"] = "game-did-not-start"
                     break
                 # the coroutine returned and the mode stopped
                 fin = {"t": "fin", "game_none": True}
+                if case.get("g2") and c["gameno"] == 1 and c["pos"] < len(c["ins"]):
+                    # a second game on the same mode object, with its own configuration; the playfield stays as it is
+                    g2 = case["g2"]
+                    c["gameno"] = 2
+                    c["evc"] = 0
+                    c["own"] = bool(g2["own"])
+                    c["flags"] = []
+                    c["lastfin"] = fin
+                    fin["restart_ok"] = True
+                    c["log"].append(fin)
+                    out["splits"].append(c["pos"])
+                    m.config["game"]["balls_per_game"] = NativeTypeTemplate(int(g2["bpg"]), m)
+                    m.config["game"]["max_players"] = NativeTypeTemplate(int(g2["maxp"]), m)
+                    r.hit_and_release_switch("s_start")
+                    continue
                 c["phase"] = "restart"
                 c["own"] = True
                 c["flags"] = []
@@ -354,10 +423,13 @@ def run_game(case):
             c["pos"] += 1
             evc = c["evc"]
             r._post_batch(inp["idle"])
-            r.advance_time_and_run(1)
+            # wait_until_playfields_are_empty polls once per second: the 1.5 s window after the batch contains a poll
+            # whatever the phase of the poll (deadlines that coincide with the end of an advance are served by the next one)
+            r.advance_time_and_run(1.5)
             if c["evc"] == evc and not c["stop"] and m.game is not None:
                 g = m.game
-                c["log"].append({"t": "idle", "bip": g.balls_in_play, "np": len(g.player_list), "ending": bool(g.ending)})
+                c["log"].append({"t": "idle", "bip": g.balls_in_play, "np": len(g.player_list), "ending": bool(g.ending),
+                                 "pf": m.playfield.available_balls, "held": len(c["heldq"])})
     except Exception as e:   # an exception inside the machine is data, not a harness error
         out["err"] = "%s: %s" % (type(e).__name__, str(e)[:300])
     if r.exception() is not None and out["err"] is None:
@@ -386,6 +458,8 @@ def cop(op):
         return "Drain %s" % zlit(op[1])
     if k == "addbip":
         return "AddBip %s" % zlit(op[1])
+    if k == "pfadd":
+        return "PfAdd %s" % zlit(op[1])
     if k == "endball":
         return "EndBall"
     if k == "endgame":
@@ -414,7 +488,9 @@ def enc_log(log):
             rows.append([1, e["k"], 0 if game_level else e["p"], 0 if game_level else e["b"], 1 if e["x"] else 0,
                          e["bip"], e["np"]])
         elif t == "idle":
-            rows.append([2, e["bip"], e["np"]])
+            rows.append([2, e["bip"], e["np"], e["pf"]])
+        elif t == "opobs":
+            rows.append([5, e["code"], e["bip"]])
         elif t == "award":
             rows.append([3, e["p"]])
         elif t == "fin":
@@ -425,12 +501,22 @@ def enc_log(log):
 def coq_game(case, out):
     if out.get("err"):
         return None     # reported by the oracle (sig machine-error)
-    ins = coqlist("mkin %s %s %s" % (cbatch([o for o in i["ev"] if o[0] != "release"]), coqlist(cbatch(h) for h in i["holds"]), cbatch(i["idle"]))
-                  for i in case["ins"])
-    cfg = "cfgz %s %s %s %s %s" % (zlit(case["bpg"]), zlit(case["maxp"]), zlit(case["nbk"]), blit(case["own"]),
-                                  blit(case.get("holdadds", False)))
+    def cins(lst):
+        return coqlist("mkin %s %s %s" % (cbatch([o for o in i["ev"] if o[0] != "release"]), coqlist(cbatch(h) for h in i["holds"]),
+                                          cbatch(i["idle"])) for i in lst)
+
+    def ccfg(d):
+        return "cfgz %s %s %s %s %s" % (zlit(d["bpg"]), zlit(d["maxp"]), zlit(case["nbk"]), blit(d["own"]),
+                                        blit(case.get("holdadds", False)))
+    # the inputs are cut where the implementation's first game ended (a game that has ended ignores further inputs)
+    splits = out.get("splits") or []
+    if splits:
+        games = [(case, case["ins"][:splits[0]]), (case["g2"], case["ins"][splits[0]:])]
+    else:
+        games = [(case, case["ins"])]
+    gs = coqlist("(%s, %s)" % (ccfg(d), cins(lst)) for d, lst in games)
     exp = coqlist("[" + ";".join(zlit(x) for x in row) + "]" for row in enc_log(out["log"]))
-    return "((%s, %s), %s)" % (cfg, ins, exp)
+    return "(%s, %s)" % (gs, exp)
 
 
 HDR = "From C06 Require Import Model.\n"
@@ -448,8 +534,30 @@ def oracle_game(case, out):
     if out.get("err"):
         fail("machine-error", "the machine raised / the driver could not run the game: %s" % out["err"])
         return fails
-    log = out["log"]
-    bpg, nbk = case["bpg"], case["nbk"]
+    # one segment per game (a case may run a second game on the same mode object after the first has ended)
+    segs, cur_seg = [], []
+    for e in out["log"]:
+        cur_seg.append(e)
+        if e["t"] == "fin":
+            segs.append(cur_seg)
+            cur_seg = []
+    if cur_seg or not segs:
+        segs.append(cur_seg)
+    if len(segs) > 2 or (len(segs) == 2 and not case.get("g2")):
+        fail("grammar", "events after the end of the game")
+        segs = segs[:1]
+    for gi, seg in enumerate(segs):
+        cfg = case if gi == 0 else case["g2"]
+        last = gi == len(segs) - 1
+        _oracle_one(case, out, cfg["bpg"], seg, last, fail, "" if gi == 0 else "second game: ")
+    return fails
+
+
+def _oracle_one(case, out, bpg, log, last_game, fail0, prefix, device_rig=False):
+    nbk = case["nbk"]
+
+    def fail(sig, what):
+        fail0(sig, prefix + what)
     evs = [e for e in log if e["t"] == "ev"]
 
     # -- balls in play always between 0 and num_balls_known
@@ -572,30 +680,66 @@ def oracle_game(case, out):
                 fail("game-end-early", "game_will_end without an end request after turn %s; %s players, %s balls per game" %
                      (last, e["np"], bpg))
 
-    # -- a ball ends exactly when balls in play reaches zero or an end is requested
-    inwin = False
+    if device_rig:
+        return      # the clauses below need the per-operation observations of the fake-game rig
+    # -- a ball ends exactly when balls in play reaches zero or an end is requested.
+    #    The window of a ball opens with ball_will_start (_run_ball clears the end-of-ball event just before) and
+    #    closes with ball_will_end.  Causes inside the window: an end request (end_ball, end_game, slam tilt while the
+    #    game is not ending); balls_in_play going from > 0 to 0 by a direct assignment at any time; balls_in_play
+    #    going from > 0 to 0 by a drain while the ball is live (from ball_started on).  A drain that arrives before
+    #    ball_started belongs to an earlier ball (one that was ended by request and comes home late): it must not end
+    #    this ball.  Every operation is followed by an observation of balls_in_play, so each change is attributed to
+    #    one operation.
+    #    Progress: while the game idles between ball_will_start and ball_starting the playfield must still hold a
+    #    ball (wait_until_playfields_are_empty); while it idles after ball_started no cause may have occurred; it
+    #    idles nowhere else except while waiting for the first player.
+    phase = "none"       # none | start (ball_will_start seen) | starting (ball_starting seen) | live (ball_started seen)
     cause = False
-    prev = None
+    cur_op = None
+    waiting_player = False
     for e in log:
         t = e["t"]
-        if t == "ev" and e["k"] == BWS:
-            inwin, cause, prev = True, False, e["bip"]
+        if t == "ev":
+            k = e["k"]
+            cur_op = None
+            waiting_player = (k == GSg)
+            if k == BWS:
+                phase, cause = "start", False
+            elif k == BSg and phase == "start":
+                phase = "starting"
+            elif k == BSd and phase == "starting":
+                phase = "live"
+            elif k == BWE:
+                if phase != "none" and not cause:
+                    fail("ball-end-no-cause", "ball_will_end although no end was requested and balls in play did not reach "
+                                              "zero through this ball (no drain of a live ball, no assignment)")
+                phase = "none"
             continue
-        if not inwin:
+        if t == "op":
+            cur_op = e
             continue
-        if t == "ev" and e["k"] == BWE:
-            if not cause:
-                fail("ball-end-no-cause", "ball_will_end although balls in play never reached zero and no end was requested")
-            inwin = False
-            continue
-        if "bip" in e:
-            if prev is not None and prev > 0 and e["bip"] == 0:
+        if t == "opobs" and cur_op is not None:
+            o = cur_op
+            cur_op = None
+            if phase == "none":
+                continue
+            if o["op"] in ("endball", "endgame") or (o["op"] == "slam" and not o["ending"]):
                 cause = True
-            prev = e["bip"]
-        if t == "op" and (e["op"] in ("endball", "endgame") or (e["op"] == "slam" and not e["ending"])):
-            cause = True
-        if t == "idle" and cause:
-            fail("ball-not-ended", "balls in play reached zero or an end was requested, but the ball did not end")
+            if o["bip"] > 0 and e["bip"] == 0:
+                if o["op"] == "addbip" or (o["op"] == "drain" and phase == "live"):
+                    cause = True
+            continue
+        if t == "idle":
+            if phase == "live":
+                if cause:
+                    fail("ball-not-ended", "balls in play reached zero or an end was requested, but the ball did not end")
+            elif phase == "start":
+                if e["pf"] <= 0:
+                    fail("ball-start-stuck", "ball_will_start was posted and the playfield holds %s balls, but the ball does "
+                                             "not start (no ball_starting): the game neither continues nor ends" % e["pf"])
+            elif not waiting_player:
+                fail("lifecycle-stalled", "the game idles after %s although nothing holds it" %
+                     (KINDS[[z for z in log[:log.index(e)] if z["t"] == "ev"][-1]["k"]]))
 
     # -- after the game has ended no game is active and a new one can start; a game must not hang
     for i, e in enumerate(log):
@@ -610,9 +754,8 @@ def oracle_game(case, out):
             fail("game-hangs", "end_game was requested before the first player was added: the game neither starts nor ends")
     if evs and evs[-1]["k"] == GEd and out.get("consumed", 0) < len(case["ins"]) and not any(e["t"] == "fin" for e in log):
         fail("ended-game-active", "game_ended was posted but the game mode did not stop")
-    if out.get("stuck_at_cleanup"):
+    if last_game and out.get("stuck_at_cleanup"):
         fail("game-hangs", "the game could not be ended with end_game() (it hangs)")
-    return fails
 
 
 def turns_before(log, upto):
@@ -678,19 +821,271 @@ def describe_game(case):
     return "%s bpg=%d" % (case.get("profile", "?"), case["bpg"])
 
 
+# ------------------------------------------------------------------------------------------------
+# Suite "devices" (oracle-only supplement): real ball devices (trough + plunger + playfield on the smart_virtual platform),
+# the real ball controller and the real playfield counts.  A script attaches physical actions and requests to the
+# lifecycle events of Game._run (a ball rolls into the trough, a stray ball nobody knew about rolls into the trough,
+# a playfield switch is hit, end_ball is requested, a queue event is held for some seconds); between events the driver
+# lets the ball in play drain after a while.  No model run: the observable counts depend on device timing that belongs
+# to C04/C05; the game-level clauses are checked by the oracle below.
+DEV_ACTIONS = ["none", "none", "none", "drain", "stray", "endball", "pfhit"]
+
+
+def gen_dev(rng, tier, i):
+    n = rng.choice([20, 40, 60])
+    script = []
+    for _ in range(n):
+        # [action issued by a handler of the lifecycle event, seconds a handler holds the event when it is a queue event]
+        script.append([rng.choice(DEV_ACTIONS), rng.choice([0, 0, 0, 1, 2, 3, 5])])
+    return {"bpg": rng.choice([1, 2, 2, 3]), "script": script, "live": rng.choice([2, 3, 6]),
+            "second_hold_action": rng.choice(["none", "drain", "stray", "stray", "endball"])}
+
+
+def _dev_config(bpg):
+    sw = {"s_start": {"number": "1", "tags": "start"}, "s_pf": {"number": "2", "tags": "playfield_active"},
+          "s_plunger": {"number": "3"}}
+    for i in range(1, 6):
+        sw["s_t%d" % i] = {"number": str(10 + i)}
+    return {
+        "game": {"balls_per_game": bpg},
+        "machine": {"min_balls": 1},
+        "switches": sw,
+        "coils": {"c_trough": {"number": "1"}, "c_plunger": {"number": "2"}},
+        "ball_devices": {
+            "trough": {"ball_switches": "s_t1, s_t2, s_t3, s_t4, s_t5", "eject_coil": "c_trough", "tags": "trough, home, drain",
+                       "eject_targets": "plunger", "eject_timeouts": "2s"},
+            "plunger": {"ball_switches": "s_plunger", "eject_coil": "c_plunger", "eject_targets": "playfield",
+                        "eject_timeouts": "2s"}},
+        "playfields": {"playfield": {"default_source_device": "plunger", "tags": "default"}},
+        "virtual_platform_start_active_switches": ["s_t1", "s_t2", "s_t3"],
+    }
+
+
+def run_dev(case):
+    from rig import GameRig
+    r = GameRig(_dev_config(case["bpg"]), platform="smart_virtual")
+    r.start()
+    m = r.machine
+    log = []
+    st = {"n": 0, "hold": None, "last": None, "stop": False, "total": 3, "onpf": 0}
+    trough_sw = ["s_t%d" % i for i in range(1, 6)]
+
+    def now():
+        return int(round(m.clock.get_time() * 1000))
+
+    def plunger_left(**kwargs):
+        # physical truth: a ball that leaves the plunger lane is on the playfield
+        st["onpf"] += 1
+    m.switch_controller.add_switch_handler("s_plunger", plunger_left, state=0)
+
+    def free_trough():
+        for x in trough_sw:
+            if not m.switches[x].state:
+                return x
+        return None
+
+    def act(a, src):
+        g = m.game
+        if a == "drain":
+            # a ball that is on the playfield rolls into the trough
+            if st["onpf"] > 0 and free_trough():
+                st["onpf"] -= 1
+                log.append({"t": "act", "a": "drain", "src": src, "ms": now()})
+                m.switch_controller.process_switch(free_trough(), 1, logical=True)
+        elif a == "stray":
+            # a ball nobody knew about (it was stuck somewhere) rolls into the trough
+            if st["total"] < 5 and free_trough():
+                st["total"] += 1
+                log.append({"t": "act", "a": "stray", "src": src, "ms": now()})
+                m.switch_controller.process_switch(free_trough(), 1, logical=True)
+        elif a == "endball":
+            if g is not None:
+                log.append({"t": "act", "a": "endball", "src": src, "ms": now()})
+                g.end_ball()
+        elif a == "pfhit":
+            log.append({"t": "act", "a": "pfhit", "src": src, "ms": now()})
+            m.switch_controller.process_switch("s_pf", 1, logical=True)
+            m.switch_controller.process_switch("s_pf", 0, logical=True)
+
+    def lifecycle(kind):
+        def h(**kwargs):
+            g = m.game
+            pl = g.player if g else None
+            log.append({"t": "ev", "k": kind, "p": pl.number if pl else 0, "b": pl.ball if pl else 0,
+                        "x": bool(kwargs.get("is_extra_ball", False)), "bip": g.balls_in_play if g else -99,
+                        "np": len(g.player_list) if g else -99, "active": g is not None,
+                        "pf": m.playfield.available_balls, "known": m.ball_controller.num_balls_known, "ms": now()})
+            st["last"] = kind
+            if st["stop"]:
+                return
+            if st["n"] >= len(case["script"]):
+                return
+            a = case["script"][st["n"]]
+            st["n"] += 1
+            act(a[0], KINDS[kind])
+            if kind in QUEUE and a[1] > 0:
+                kwargs["queue"].wait()
+                st["hold"] = [kwargs["queue"], a[1], kind]
+                log.append({"t": "act", "a": "hold", "src": KINDS[kind], "ms": now(), "secs": a[1]})
+        return h
+
+    for i, name in enumerate(KINDS):
+        m.events.add_handler(name, lifecycle(i), priority=1000)
+
+    def drained(balls=0, **kwargs):
+        g = m.game
+        log.append({"t": "drainev", "balls": balls, "bip": g.balls_in_play if g else -99, "ms": now()})
+    m.events.add_handler("ball_drain", drained, priority=-1000)     # after the game's handler
+    out = {"log": log, "err": None}
+    try:
+        r.advance_time_and_run(2)
+        r.hit_and_release_switch("s_start")
+        live_for = 0
+        budget = 60 * len(case["script"]) // 20 + 200
+        calm_from = budget - 160
+        for tick in range(budget):
+            r.advance_time_and_run(1)
+            g = m.game
+            if tick >= calm_from:
+                st["stop"] = True
+            log.append({"t": "tick", "bip": g.balls_in_play if g else None, "pf": m.playfield.available_balls,
+                        "known": m.ball_controller.num_balls_known, "held": st["hold"] is not None,
+                        "last": st["last"], "active": g is not None, "onpf": st["onpf"], "ms": now()})
+            if g is None and any(e["t"] == "ev" for e in log):
+                break
+            if st["hold"] is not None:
+                q, secs, kind = st["hold"]
+                if secs == 2 and not st["stop"]:
+                    act(case["second_hold_action"], "held " + KINDS[kind])
+                if secs <= 1 or st["stop"]:
+                    st["hold"] = None
+                    q.clear()
+                else:
+                    st["hold"][1] = secs - 1
+                continue
+            # the ball in play drains after a while
+            if st["last"] == BSd and st["onpf"] > 0:
+                live_for += 1
+                if live_for >= (2 if st["stop"] else case["live"]):
+                    live_for = 0
+                    act("drain", "idle")
+            elif st["onpf"] > 0 and st["last"] in (BWS, BWE, BEg, BEd, PTWE, PTEg, PTEd, PTWS, PTSg, PTSd, GWE, GEg):
+                # balls that are still on the playfield although no ball is live come home too
+                live_for += 1
+                if live_for >= 2:
+                    live_for = 0
+                    act("drain", "idle-home")
+            else:
+                live_for = 0
+    except Exception as e:   # an exception inside the machine is data
+        out["err"] = "%s: %s" % (type(e).__name__, str(e)[:300])
+    if r.exception() is not None and out["err"] is None:
+        out["err"] = "machine-exception: %r" % (r.exception(),)
+    try:
+        r.stop()
+    except BaseException:   # noqa
+        pass
+    return out
+
+
+def oracle_dev(case, out):
+    fails = []
+
+    def fail(sig, what):
+        if not any(f["sig"] == sig for f in fails):
+            fails.append({"sig": sig, "what": what})
+    if out.get("err"):
+        fail("machine-error", "the machine raised / the driver could not run the game: %s" % out["err"])
+        return fails
+    log = out["log"]
+    # grammar, turn order, event arguments: the same predicates as for the fake-game suite
+    glog = [e for e in log if e["t"] == "ev"]
+    _oracle_one({"nbk": 99}, {}, case["bpg"], glog, False, fail, "", device_rig=True)
+    phase, cause, stuck, zero = "none", False, 0, 0
+    for e in log:
+        t = e["t"]
+        if t == "ev":
+            k = e["k"]
+            stuck = zero = 0
+            if not (0 <= e["bip"] <= e["known"]):
+                fail("bip-bounds", "balls_in_play=%s outside [0,%s]" % (e["bip"], e["known"]))
+            if k == BWS:
+                phase, cause = "start", False
+            elif k == BSg and phase == "start":
+                phase = "starting"
+            elif k == BSd and phase == "starting":
+                phase = "live"
+            elif k == BWE:
+                if phase != "none" and not cause:
+                    fail("ball-end-no-cause", "ball_will_end although no end was requested and no ball of this ball drained "
+                                              "to zero balls in play")
+                phase = "none"
+        elif t == "act" and e["a"] == "endball" and phase != "none":
+            cause = True
+        elif t == "drainev" and phase == "live" and e["bip"] == 0:
+            cause = True
+        elif t == "tick":
+            if e["active"] and e["bip"] is not None and not (0 <= e["bip"] <= e["known"]):
+                fail("bip-bounds", "balls_in_play=%s outside [0,%s]" % (e["bip"], e["known"]))
+            if phase == "start" and not e["held"] and e["pf"] <= 0:
+                stuck += 1
+                if stuck >= 3:
+                    fail("ball-start-stuck", "ball_will_start was posted, the playfield count is %s and nothing holds the game, "
+                                             "but ball_starting does not follow: the game neither continues nor ends" % e["pf"])
+            if phase == "live" and cause:
+                zero += 1
+                if zero >= 2:
+                    fail("ball-not-ended", "balls in play reached zero or an end was requested, but the ball did not end")
+    ticks = [e for e in log if e["t"] == "tick"]
+    if ticks and ticks[-1]["active"]:
+        fail("game-not-ended", "the game did not reach game_ended although every ball was drained and nothing was held for "
+                               "160 s (last lifecycle event: %s)" % (KINDS[ticks[-1]["last"]] if ticks[-1]["last"] is not None else None))
+    if not any(e["t"] == "ev" for e in log):
+        fail("game-did-not-start", "no lifecycle event was posted after the start button")
+    return fails
+
+
+def shrink_dev(case):
+    sc = case["script"]
+    n = len(sc)
+    for cut in (n // 2, n - n // 4):
+        if 0 < cut < n:
+            yield dict(case, script=sc[:cut])
+    for i in range(n):
+        if sc[i] != ["none", 0]:
+            yield dict(case, script=sc[:i] + [["none", 0]] + sc[i + 1:])
+    if case["second_hold_action"] != "none":
+        yield dict(case, second_hold_action="none")
+    if case["bpg"] > 1:
+        yield dict(case, bpg=case["bpg"] - 1)
+
+
+def nontrivial_dev(case, out):
+    acts = set(e["a"] for e in out.get("log", []) if e["t"] == "act")
+    return len(acts - {"pfhit"}) >= 2
+
+
 SUITES = [
     Suite("game", gen_game, run_game, HDR, coq_game, oracle_game, shrink_game, nontrivial_game,
           {"quick": 600, "thorough": 20000}, describe=describe_game, shard=60, case_timeout=120),
+    Suite("devices", gen_dev, run_dev, None, None, oracle_dev, shrink_dev, nontrivial_dev,
+          {"quick": 40, "thorough": 1500}, describe=lambda c: "bpg=%d" % c["bpg"], case_timeout=120),
 ]
 
-LEVEL_TEXT = ("Machine-checked proof (Coq) about a program-counter model of the game coroutine (Game._run and callees, with the "
-              "proposed fixes applied) under every sequence of environment operations at every suspension point: the lifecycle "
-              "trace is accepted by the lifecycle grammar with consistent player and ball numbers, turns rotate 1..n with ball "
-              "numbers 1..balls_per_game and nobody joins after the first round, balls in play stays within [0, num_balls_known], "
-              "and the coroutine's end coincides with machine.game being cleared; the unfixed code is refuted by vm_compute "
-              "witnesses.  The model is tied to the working tree by running real games on the same inputs on every run.")
+LEVEL_TEXT = ("Machine-checked proof (Coq) about a program-counter model of the game coroutine (Game._run and callees incl. the wait for "
+              "empty playfields and the re-initialisation for further games) under every sequence of environment operations at every "
+              "suspension point: the lifecycle trace is accepted by the lifecycle grammar with consistent player and ball numbers; turns "
+              "rotate 1..n with ball numbers 1..balls_per_game and nobody joins after the first round; the game ends exactly after the turn "
+              "of the last player on the last ball unless end_game / slam tilt was requested; a ball ends only after an end request or after "
+              "balls in play went from > 0 to 0 and a live ball with such a cause does not go on; extra balls played never exceed and at the "
+              "end of a turn equal the extra balls awarded; balls in play stays within [0, num_balls_known]; the coroutine's end coincides "
+              "with machine.game being cleared; a further game on the same mode object starts from the state of a first game.  The unfixed "
+              "code of three earlier findings is refuted by vm_compute witnesses.  The model is tied to the working tree by running real "
+              "games on the same inputs on every run.")
 LEVEL_NOTE = ("Trusted: Coq kernel + vm_compute; no axioms.  Model hand-written; the correspondence run compares whole traces of "
-              "real games (MpfFakeGameTestCase rig, no ball devices) with the model.  The event manager and asyncio are not "
-              "modelled beyond the batch rule stated in Model.v; tilt/bonus/high-score modes are not loaded.")
-TECHNIQUE = "Coq proof over hand-written executable pc-machine model + differential correspondence (vm_compute) + direct lifecycle oracle"
+              "real games (MpfFakeGameTestCase rig, playfield count kept as that test case does) with the model.  The event manager and asyncio "
+              "are not modelled beyond the batch rule stated in Model.v; tilt/bonus/high-score modes are not loaded; Mode.stop() is not "
+              "modelled.  The suite on real ball devices (smart_virtual) is an oracle-only supplement: progress, ball-end causes, bounds, grammar.")
+TECHNIQUE = ("Coq proof over hand-written executable pc-machine model (six trace monitors + state invariants) + differential correspondence "
+             "(vm_compute) + direct lifecycle / progress oracle")
 DESIGN_REF = "DESIGN.md section 3, C06"
